@@ -55,9 +55,20 @@ def parsePoints (ts : List String) : Option (List (Int × List FCell)) :=
   | ["-"] => some []
   | _ => ts.mapM parsePoint
 
-/-- "fix:<ns>" | "fix:<ns>@<offsetSec>" | "day" (UTC).  Returns the period and its length for UTC-like kinds. -/
+/-- A period given by the table of its consecutive starts `bs` (strictly increasing), valid for instants in
+`[bs.head, bs.last)`: used for calendar periods in zones with daylight-saving changes, where the harness
+obtains the table from the real `GetStartTime` alone (never from `GetEndTime`). -/
+def tablePeriod (bs : List Int) : Period where
+  start := fun t => ((bs.filter (fun b => b ≤ t)).getLast?).getD t
+  stop := fun t => (bs.find? (fun b => t < b)).getD (t + 1)
+
+/-- "fix:<ns>" | "fix:<ns>@<offsetSec>" | "day" (UTC) | "tab:<kind>@<zone>:<b0>,<b1>,…" (table of period starts). -/
 def parsePeriod (s : String) : Option Period :=
-  if s == "day" then some (fixedPeriod 86400000000000)
+  if s.startsWith "tab:" then
+    match s.splitOn ":" with
+    | [_, _, bs] => (parseIntList bs).map tablePeriod
+    | _ => none
+  else if s == "day" then some (fixedPeriod 86400000000000)
   else if s.startsWith "fix:" then
     let body := (s.drop 4).toString
     match body.splitOn "@" with
